@@ -1,11 +1,11 @@
 SPECIFICATION Spec
 CONSTANTS
-  OptSet <- OptsPlain
-  CallSet <- SingleCalls
-  ChangeSet <- MoveChanges
+  OptSet <- OptsOne
+  CallSet <- HopCalls
+  ChangeSet <- HopChanges
   MaxCalls = 1
   MaxChanges = 1
-  MaxGen = 3
+  MaxGen = 4
   MaxAtt = 3
   EagerLazy = FALSE
   LazyMidCall = FALSE
@@ -14,15 +14,15 @@ CONSTANTS
   BugTxNoMulti = FALSE
   BugPredIgnored = FALSE
   BugNodeOrder = FALSE
-  BugMovedIgnored = TRUE
+  BugMovedIgnored = FALSE
   BugMaxOffByOne = FALSE
   BugSelClamp = FALSE
   BugRefreshDropsInit = FALSE
-  BugAskRunNoInit = FALSE
+  BugAskRunNoInit = TRUE
   BugPoolStale = FALSE
   BugStreamKeyless = FALSE
   BugPromoteReplica = FALSE
-INVARIANTS TypeOK RedirectFollowed
+INVARIANTS TypeOK TxResentWhole
 CONSTRAINT GenBound
 VIEW MCView
 CHECK_DEADLOCK FALSE
